@@ -110,7 +110,7 @@ class Quantity {
  public:
     using Rep = RepT;
     using Unit = UnitT;
-    static constexpr auto unit = Unit{};
+    static constexpr Unit unit{};
 
     static_assert(IsValidRep<Rep>::value, "Rep must meet our requirements for a rep");
 
@@ -433,6 +433,10 @@ class Quantity {
     Rep value_{};
 };
 
+// Out-of-line definition: needed before C++17 whenever `unit` is ODR-used (e.g., bound to a reference).
+template <typename UnitT, typename RepT>
+constexpr typename Quantity<UnitT, RepT>::Unit Quantity<UnitT, RepT>::unit;
+
 // Give more readable error messages when passing `Quantity` to a unit slot.
 template <typename U, typename R>
 struct AssociatedUnit<Quantity<U, R>> {
@@ -561,7 +565,7 @@ constexpr auto rep_cast(Zero z) {
 template <typename UnitT>
 struct QuantityMaker {
     using Unit = UnitT;
-    static constexpr auto unit = Unit{};
+    static constexpr Unit unit{};
 
     template <typename T>
     constexpr Quantity<Unit, T> operator()(T value) const {
@@ -610,6 +614,10 @@ struct QuantityMaker {
         return QuantityMaker<UnitQuotientT<Unit, OtherUnit>>{};
     }
 };
+
+// Out-of-line definition: needed before C++17 whenever `unit` is ODR-used (e.g., bound to a reference).
+template <typename UnitT>
+constexpr typename QuantityMaker<UnitT>::Unit QuantityMaker<UnitT>::unit;
 
 template <typename U>
 struct AssociatedUnit<QuantityMaker<U>> : stdx::type_identity<U> {};
